@@ -3,6 +3,7 @@ package main
 import (
 	"context"
 	"crypto/sha256"
+	"encoding/hex"
 	"fmt"
 	"net/http"
 	"os"
@@ -237,7 +238,9 @@ func configureSimpleAuth(cfg interface{}) (vlauth.IFace, error) {
 
 	if len(sAuth.creds) == 0 {
 		logger.Warn("\tsimpleAuth config without users. setting default to guest:guest")
-		_ = sAuth.addUser("guest", string(sha256.New().Sum([]byte("guest"))), "", "")
+		// the password is kept as Password() compares it: the hexadecimal SHA-256 digest
+		digest := sha256.Sum256([]byte("guest"))
+		_ = sAuth.addUser("guest", hex.EncodeToString(digest[:]), "", "")
 	}
 
 	return sAuth, nil
